@@ -113,7 +113,7 @@ pub enum Hist {
     IoFault { t: u64, call: &'static str, kind: &'static str },
     Net { t: u64, what: &'static str, to_client: bool, len: usize },
     ServerRx { t: u64, server: usize, proto: Proto, from: SocketAddr, data: Vec<u8> },
-    ServerTx { t: u64, server: usize, proto: Proto, len: usize },
+    ServerTx { t: u64, server: usize, proto: Proto, len: usize, data: Vec<u8> },
     Http { t: u64, method: String, url: String, headers: Vec<(String, String)> },
 }
 
@@ -244,6 +244,7 @@ impl<'a> Cx<'a> {
             server: me,
             proto: Proto::Udp,
             len: data.len(),
+            data: data.clone(),
         });
         self.w.net_udp_to_client(from, to, data, extra);
     }
@@ -255,6 +256,7 @@ impl<'a> Cx<'a> {
             server: me,
             proto: Proto::Tcp,
             len: data.len(),
+            data: data.clone(),
         });
         self.w.net_tcp_to_client(conn, TcpSeg::Data(data));
     }
@@ -1091,11 +1093,11 @@ impl World {
     pub fn render_history(&self, max: usize) -> Vec<String> {
         fn hex(d: &[u8]) -> String {
             let mut s = String::new();
-            for b in d.iter().take(48) {
+            for b in d.iter().take(160) {
                 s.push_str(&format!("{b:02x}"));
             }
-            if d.len() > 48 {
-                s.push_str(&format!("..(+{})", d.len() - 48));
+            if d.len() > 160 {
+                s.push_str(&format!("..(+{})", d.len() - 160));
             }
             s
         }
@@ -1132,7 +1134,7 @@ impl World {
                 Hist::ServerRx { t, server, proto, from, data } => {
                     format!("t={t} server{server} rx {proto:?} from={from} len={} {}", data.len(), hex(data))
                 }
-                Hist::ServerTx { t, server, proto, len } => format!("t={t} server{server} tx {proto:?} len={len}"),
+                Hist::ServerTx { t, server, proto, len, data } => format!("t={t} server{server} tx {proto:?} len={len} {}", hex(data)),
                 Hist::Http { t, method, url, headers } => format!("t={t} http {method} {url} headers={headers:?}"),
             });
         }
